@@ -9,6 +9,12 @@ spec -> code : the grid of the design run (every n <= 50, every epoch) is execut
 code -> spec : histories of calls on stub models (1..3 metrics, costs moving around their targets, given and derived
                strengths, gradients w.r.t. the costs) and on real PIT / MPS models, plus BaseRegularizer, are validated
                by TLC (DuccioTrace) which recomputes every expected value with the operators of Duccio.tla.
+life cycle   : DuccioLife (TLC): every sequence of up to 3 calls of ONE object over an alphabet of (epoch, n_epochs |
+               arguments omitted) x costs reported by the model; invariant = each call returns what a fresh regulariser
+               with the same final strengths returns (history independence apart from the documented lazy
+               initialisation). Two deliberately wrong implementations (cache keyed by epoch; value cached per
+               (epoch, n_epochs)) must violate it. Every maximal sequence is replayed on a real DUCCIO next to fresh real
+               objects and validated by TLC; longer random sequences and real models likewise.
 Strengths are of the form 100*n*m*2^-10 so that float32 evaluates the schedule without rounding (values are compared
 exactly, as integers); generic float32 strengths are covered by order facts on IEEE bit patterns plus two
 tolerance bits (relative 2^-20) computed with exact rationals.
@@ -19,6 +25,7 @@ import json
 import math
 import random
 import struct
+import tempfile
 from fractions import Fraction
 
 from ..core import Run, use_repo
@@ -123,7 +130,10 @@ def run_hist(torch, DUCCIO, sc, model_factory=None):
             rec["v"], rec["frac"] = _units(x)
             g = []
             if val.requires_grad:
-                val.backward()
+                try:
+                    val.backward()
+                except RuntimeError:
+                    rec["gerr"] = True          # the returned value cannot be differentiated
             for nm in names:
                 gr = mdl.c[nm].grad
                 gx = 0.0 if gr is None else float(gr)
@@ -141,6 +151,119 @@ def run_hist(torch, DUCCIO, sc, model_factory=None):
     else:
         tr["lossM"] = sc["lossM"]
     return tr
+
+
+def _val_rec(val):
+    x = float(val)
+    cls = _cls(x)
+    if cls != "fin":
+        return cls, 0, False
+    v, frac = _units(x)
+    return cls, v, frac
+
+
+def run_life(torch, DUCCIO, sc, model=None):
+    """One DUCCIO object called with (epoch, n_epochs) changing per call (sc['calls'] = [{e, n, d, c}]); next to every
+    call a FRESH real regulariser with the same final strengths is asked for the same (costs, epoch, n_epochs)."""
+    names = [f"m{i}" for i in range(len(sc["t"]))]
+
+    def targets():
+        return {nm: torch.tensor(float(t)) for nm, t in zip(names, sc["t"])}
+    if sc["mode"] == "given":
+        given = [_f(torch, s * U) for s in sc["sU"]]
+        reg = DUCCIO(targets(), final_strengths=tuple(g.clone() for g in given))
+    else:
+        given = None
+        reg = DUCCIO(targets(), task_loss=_f(torch, sc["lossU"] * U))
+    fixed = given
+    calls = []
+    for cl in sc["calls"]:
+        mdl = model if model is not None else Stub(torch, dict(zip(names, cl["c"])))
+        val = reg(mdl) if cl["d"] else reg(mdl, cl["e"], cl["n"])
+        if fixed is None:
+            # derived strengths: the ones fixed by the lazy initialisation at the first call
+            fs = getattr(reg, "final_strengths", None)
+            if fs is None:
+                raise tlc.MachineryError("DUCCIO.final_strengths not available after the first call")
+            fixed = [torch.as_tensor(x).detach().clone() for x in fs]
+        fresh = DUCCIO(targets(), final_strengths=tuple(x.clone() for x in fixed))
+        fmdl = model if model is not None else Stub(torch, dict(zip(names, cl["c"])))
+        fval = fresh(fmdl, cl["e"], cl["n"])
+        cls, v, frac = _val_rec(val)
+        fcls, fv, ffrac = _val_rec(fval)
+        calls.append({"e": cl["e"], "n": cl["n"], "d": bool(cl["d"]), "c": list(cl["c"]),
+                      "cls": cls, "v": v, "frac": frac, "fcls": fcls, "fv": fv, "ffrac": ffrac})
+    tr = {"k": "life", "mode": sc["mode"], "t": sc["t"], "calls": calls}
+    if sc["mode"] == "given":
+        tr["sU"] = sc["sU"]
+    else:
+        tr["lossU"] = sc["lossU"]
+    return tr
+
+
+DIV19800 = [1, 2, 4, 5, 8, 10, 20, 25, 40, 50]     # n_epochs for which the ramp of a 10^4*m strength is exact
+
+
+def random_life(rng):
+    k = rng.randint(1, 2)
+    t = [10, 20][:k]
+    mode = rng.choice(["given", "derived"])
+    sc = {"kind": "life", "mode": mode, "t": t}
+    if mode == "given":
+        sc["sU"] = [10000 * rng.randint(1, 2) for _ in range(k)]
+    else:
+        sc["lossU"] = 40000
+    calls = []
+    for j in range(rng.randint(4, 8)):
+        if calls and rng.random() < 0.35:
+            e = calls[-1]["e"]                               # repeated epoch, other schedule length
+            n = rng.choice([x for x in DIV19800 if x >= 1])
+        else:
+            n = rng.choice(DIV19800)
+            e = rng.randint(0, n)
+        d = rng.random() < 0.15
+        if d:
+            e, n = 1, 1
+        if j == 0 and mode == "derived":
+            c = [ti + rng.choice([1, 2, 4, 4, 0, -2]) for ti in t]
+        else:
+            c = [ti + rng.choice([-3, 0, 1, 2, 4, 8]) for ti in t]
+        calls.append({"e": e, "n": n, "d": d, "c": c})
+    sc["calls"] = calls
+    sc["nontrivial"] = True
+    return sc
+
+
+def base_forms(torch):
+    """(form label, constructor kwargs, sM, sE): strength = sM * 10^sE; default = the documented 1e-3."""
+    return [
+        ("python int 0", {"strength": 0}, 0, -9),
+        ("python float 0.0", {"strength": 0.0}, 0, -9),
+        ("tensor(0.)", {"strength": torch.tensor(0.)}, 0, -9),
+        ("omitted (documented default 1e-3)", {}, 1, -3),
+        ("python float 1e-9", {"strength": 1e-9}, 1, -9),
+        ("python int 1", {"strength": 1}, 1, 0),
+        ("python float 2.5", {"strength": 2.5}, 25, -1),
+        ("python float 1e3", {"strength": 1e3}, 1, 3),
+        ("python float 250.0", {"strength": 250.0}, 250, 0),
+        ("tensor(0.5)", {"strength": torch.tensor(0.5)}, 5, -1),
+        ("float64 tensor(3e-3)", {"strength": torch.tensor(3e-3, dtype=torch.float64)}, 3, -3),
+        ("python float 1e-3 (explicit)", {"strength": 1e-3}, 1, -3),
+    ]
+
+
+def run_baseq(BaseRegularizer, form, kwargs, sM, sE, model, name, c, default_name=False):
+    reg = BaseRegularizer(**kwargs) if default_name else BaseRegularizer(name, **kwargs)
+    x = float(reg(model))
+    big, vq = False, 0
+    if _cls(x) in ("nan", "inf"):
+        big = True
+    else:
+        q = Fraction(x) / (Fraction(10) ** (sE - 2))
+        vq = round(q)
+        if abs(vq) >= 2_000_000_000:
+            big, vq = True, 0
+    return {"k": "baseq", "form": form, "sM": sM, "sE": str(sE), "c": c, "vq": vq, "big": big}
 
 
 def random_hist(rng, allow_f17=True):
@@ -233,6 +356,28 @@ def run_real(torch, DUCCIO, BaseRegularizer, rng, n_hist):
             v, frac = _units(float(reg(model)))
             traces.append({"k": "base", "sU": sU, "c": costs[0], "v": v, "frac": frac})
             scen.append({"kind": "base", "model": tag, "sU": sU, "nontrivial": True})
+        for form, kw, sM, sE in base_forms(torch):
+            if costs[0] <= 40000:
+                traces.append(run_baseq(BaseRegularizer, form, kw, sM, sE, model, names[0], costs[0]))
+                scen.append({"kind": "baseq", "model": tag, "form": form, "c": costs[0], "nontrivial": True})
+        # one object, (epoch, n_epochs) changing per call, next to fresh objects
+        for mode in ("given", "derived"):
+            k = min(len(names), 2)
+            d = [rng.choice([1, 2, 4]) for _ in range(k)]
+            sc = {"kind": "life", "model": tag, "mode": mode, "t": [c - x for c, x in zip(costs[:k], d)],
+                  "calls": [{"e": e, "n": n, "d": dd, "c": costs[:k]} for e, n, dd in
+                            [(1, 20, False), (1, 1, True), (2, 50, False), (2, 4, False), (0, 4, False), (0, 50, False),
+                             (4, 4, False), (1, 20, False)]], "nontrivial": True}
+            if mode == "given":
+                sc["sU"] = [10000 * rng.randint(1, 2) for _ in range(k)]
+            else:
+                sc["lossU"] = 40000
+
+            class _View:                                    # the model restricted to the first k metrics m0..m(k-1)
+                def get_cost(self, nm, _m=model):
+                    return _m.get_cost(nm)
+            traces.append(run_life(torch, DUCCIO, sc, model=_View()))
+            scen.append(sc)
         # DUCCIO: one object per target vector (targets are constructor arguments)
         for _ in range(n_hist):
             n = rng.randint(1, 50)
@@ -249,10 +394,14 @@ def run_real(torch, DUCCIO, BaseRegularizer, rng, n_hist):
                 if rec["cls"] == "fin":
                     rec["v"], rec["frac"] = _units(x)
                     if val.requires_grad:
-                        gs = torch.autograd.grad(val, [p for p in model.parameters() if p.requires_grad],
-                                                 allow_unused=True)
-                        if any(g is not None and not bool(torch.isfinite(g).all()) for g in gs):
-                            rec["cls"] = "nan"
+                        try:
+                            gs = torch.autograd.grad(val, [p for p in model.parameters() if p.requires_grad],
+                                                     allow_unused=True)
+                            if any(g is not None and not bool(torch.isfinite(g).all()) for g in gs):
+                                rec["cls"] = "nan"
+                        except RuntimeError:
+                            rec["g"] = [0 for _ in names]
+                            rec["gerr"] = True
                 calls.append(rec)
             traces.append({"k": "hist", "mode": "given", "n": n, "t": t, "mults": mults, "calls": calls})
             scen.append({"kind": "real", "model": tag, "n": n, "t": t, "mults": mults, "excess": d,
@@ -271,7 +420,9 @@ def run(tier: str, seed: int, replay=None) -> int:
     R.assumptions = [
         "exact comparisons use strengths 100*n*m*2^-10 and integer costs/targets, for which float32 evaluates DUCCIO without rounding",
         "generic float32 strengths: 'reaches the final strength' and '1% at epoch 0' are decided with relative tolerance 2^-20 (exact rationals in the harness), the order clauses on IEEE bit patterns by TLC",
-        "one DUCCIO object is used with one n_epochs over its history",
+        "'hist' traces use one n_epochs per object (ascending or arbitrary epochs); 'life' traces vary epoch AND n_epochs per call, with strengths 10^4*m*2^-10 and n_epochs dividing 19800 (exact in float32)",
+        "history independence is decided against FRESH real regularisers built with the same final strengths (for derived strengths: DUCCIO.final_strengths read once after the first call)",
+        "BaseRegularizer with arbitrary decimal strengths: |value - strength*cost| <= 2e-2*10^sE + 1e-6*strength*cost (float32 round-off); default strength = the documented 1e-3",
         "strengths derived from task_loss are positive only for metrics above target at the first call; metrics below target then get strength 0 (outside 'positive final strengths': only finiteness, non-negativity and 'zero when within targets' are checked)",
         "real models: costs must be integer-valued (they are for params/ops/params_bit with hard selection); gradients on real models are only checked for finiteness",
     ]
@@ -287,6 +438,8 @@ def run(tier: str, seed: int, replay=None) -> int:
             tr = run_rampg(torch, DUCCIO, sc["n"], sc["s"])
         elif sc["kind"] == "hist":
             tr = run_hist(torch, DUCCIO, sc)
+        elif sc["kind"] == "life" and "model" not in sc:
+            tr = run_life(torch, DUCCIO, sc)
         else:
             raise tlc.MachineryError("replay of real-model scenarios: rerun the check with the same seed")
         R.validate("DuccioTrace", "DuccioTrace", [tr], [sc])
@@ -295,7 +448,13 @@ def run(tier: str, seed: int, replay=None) -> int:
     # ---- 1. design level
     R.design("DuccioMC", "DuccioMC_thorough" if thorough else "DuccioMC_quick", workers=8, coverage=True,
              require_cov=["DuccioMC!AddMetric", "DuccioMC!Seal", "DuccioMC!Tick"], timeout=3000)
-    R.design("DuccioMC", "DuccioMC_f17", workers=4, expect_ok=False)      # F17 reproduced by the model / non-vacuity
+    R.design("DuccioMC", "DuccioMC_f17", workers=4, expect_ok=False)      # pinned initialisation (F17) / non-vacuity
+    # life cycle of one object: every call sequence up to the bound; the two cached implementations must fail
+    dot = tempfile.mktemp(prefix="c19-", suffix=".dot", dir=tlc.scratch())
+    lres = R.design("DuccioLife", "DuccioLife_thorough" if thorough else "DuccioLife_quick", workers=8, dump_dot=dot,
+                    coverage=True, require_cov=["DuccioLife!Call"], timeout=3000)
+    R.design("DuccioLife", "DuccioLife_cacheEpoch", workers=4, expect_ok=False)
+    R.design("DuccioLife", "DuccioLife_cacheSched", workers=4, expect_ok=False)
 
     traces, scen = [], []
     # ---- 2. spec -> code: the whole (n, e) grid of the design run
@@ -311,14 +470,41 @@ def run(tier: str, seed: int, replay=None) -> int:
     traces.append({"k": "ramp", "n": 1, "mult": 1, "v": [v0, v1]})
     scen.append({"kind": "ramp-default-args", "n": 1, "mult": 1, "nontrivial": True})
 
+    # ---- 2b. spec -> code: every maximal call sequence of the life-cycle machine on a real object
+    nodes, _, _ = tlc.parse_dot(dot)
+    if len(nodes) != lres.distinct:
+        raise tlc.MachineryError(f"dump has {len(nodes)} states, TLC reported {lres.distinct}")
+    depth = max(st["life"]["cnt"] for st in nodes.values())
+    n_life = 0
+    for st in nodes.values():
+        if st["life"]["cnt"] != depth:
+            continue                                    # prefixes are contained in the maximal sequences
+        sc = {"kind": "life", "src": "state", "mode": st["mode"], "t": [10, 20],
+              "calls": [{"e": h["e"], "n": h["n"], "d": h["d"], "c": list(h["c"])} for h in st["hist"]],
+              "nontrivial": True}
+        if st["mode"] == "given":
+            sc["sU"] = [10000, 20000]
+        else:
+            sc["lossU"] = 40000
+        traces.append(run_life(torch, DUCCIO, sc))
+        scen.append(sc)
+        n_life += 1
+    R.extra["life_sequences_replayed"] = n_life
+    R.extra["life_sequence_length"] = depth
+    R.sample({"scenario": scen[-1], "observed": traces[-1]["calls"]})
+
     # ---- 3. code -> spec
     rng = random.Random(seed)
+    for _ in range(6000 if thorough else 500):          # longer call sequences, larger alphabet
+        sc = random_life(rng)
+        traces.append(run_life(torch, DUCCIO, sc))
+        scen.append(sc)
     for _ in range(8000 if thorough else 500):
         n = rng.randint(1, 50)
         s = float(torch.tensor(math.exp(rng.uniform(math.log(1e-6), math.log(1e4))), dtype=torch.float32))
         traces.append(run_rampg(torch, DUCCIO, n, s))
         scen.append({"kind": "rampg", "n": n, "s": s, "nontrivial": True})
-    n_hist = 50000 if thorough else 2500
+    n_hist = 50000 if thorough else 2000
     for _ in range(n_hist):
         sc = random_hist(rng)
         traces.append(run_hist(torch, DUCCIO, sc))
@@ -329,6 +515,14 @@ def run(tier: str, seed: int, replay=None) -> int:
         v, frac = _units(float(reg(Stub(torch, {"m0": c}))))
         traces.append({"k": "base", "sU": sU, "c": c, "v": v, "frac": frac})
         scen.append({"kind": "base", "model": "stub", "sU": sU, "c": c, "nontrivial": c > 0})
+    # BaseRegularizer: every accepted form of the strength (incl. 0 and the default) x several costs
+    for form, kw, sM, sE in base_forms(torch):
+        for c in (0, 1, 7, 123, 4097, 40000):
+            traces.append(run_baseq(BaseRegularizer, form, kw, sM, sE, Stub(torch, {"m0": c}), "m0", c))
+            scen.append({"kind": "baseq", "model": "stub", "form": form, "c": c, "nontrivial": c > 0})
+        traces.append(run_baseq(BaseRegularizer, form + ", default cost name", kw, sM, sE,
+                                Stub(torch, {"params": 321}), "params", 321, default_name=True))
+        scen.append({"kind": "baseq", "model": "stub-default-name", "form": form, "c": 321, "nontrivial": True})
     rt, rs, skipped = run_real(torch, DUCCIO, BaseRegularizer, rng, 150 if thorough else 10)
     R.extra["real_model_traces"] = len(rt)
     R.extra["real_models_skipped_non_integer_cost"] = skipped
